@@ -647,10 +647,29 @@ def argument_forms(check, prog):
         why3 = ''
         if ok:
             cs = norm_cond(res.raises[0].cond)
-            ok = len(cs) == 2 and cs[0][1] is False and cs[1][1] is False and \
+            ok = len(cs) == 2 and cs[0][1] is False and \
                 cs[0][0][0] == 'bool' and cs[0][0][1] == 'and' and \
-                len(cs[0][0][2]) == 2 and A in cs[0][0][2] and \
-                cs[1][0] == ('bool', 'and', (C, D))
+                len(cs[0][0][2]) == 2 and A in cs[0][0][2]
+            if ok:
+                # refused <=> not the vector form and (2nd or 3rd argument missing),
+                # as a truth table over the three tests (however it is spelled)
+                import itertools
+                from hpstatic.logic import eval3
+                other_ = [x for x in cs[0][0][2] if x != A][0]
+                for va, vb, vv in itertools.product((True, False), repeat=3):
+                    def atom(t, va=va, vb=vb, vv=vv):
+                        if t == other_:
+                            return vv
+                        if t[0] == 'cmp' and t[1] in ('is', 'is not') and t[3] == NONE \
+                                and t[2] in (a2, a3):
+                            v_ = va if t[2] == a2 else vb
+                            return v_ if t[1] == 'is' else not v_
+                        return None
+                    got = all((eval3(t, atom) is True) == p for t, p in cs) and \
+                        all(eval3(t, atom) is not None for t, p in cs)
+                    want = (not (va and vv)) and (va or vb)
+                    if got != want:
+                        ok = False
             if ok:
                 vecform = cs[0][0]
                 other = [x for x in vecform[2] if x != A][0]
